@@ -588,6 +588,12 @@ fn peppi_suite(rng: &mut Rng, ctx: &mut Ctx) {
             if &buf[..10] != b"peppi.json" { fails.push(("C18".into(), "file signature `peppi.json` is not at offset 0".into())); }
             // determinism: write the same game again
             { let g = slippi::read(Cursor::new(&b), Some(&read_opts(false, hash))).unwrap(); let mut buf2 = vec![]; let _ = peppi::io::peppi::write(&mut buf2, g, Some(&peppi::io::peppi::ser::Opts { compression: comp })); if buf2 != buf { fails.push(("C18".into(), "writing the same game twice gives different bytes".into())); } }
+            // the same archive through sources that return short reads (pipes, decompressors): same game, whatever the piece sizes
+            { let plan: Vec<usize> = match k % 5 { 0 => vec![1], 1 => vec![100], 2 => vec![511, 1, 513], 3 => vec![7, 300, 2], _ => vec![4096] };
+              for skipf in [false, true] { let o = peppi::io::peppi::de::Opts { skip_frames: skipf };
+                let a = peppi::io::peppi::read(Cursor::new(&buf), Some(&o)).map(|g| crate::suites2::game_sig(&g)).map_err(|e| e.to_string());
+                let c = peppi::io::peppi::read(crate::suites2::Chunked::new(buf.clone(), plan.clone(), None), Some(&o)).map(|g| crate::suites2::game_sig(&g)).map_err(|e| e.to_string());
+                if a != c { let m = format!(".slpp read through a source with short reads {:?} (skip_frames={}) differs from the read from memory: {:?} vs {:?}", plan, skipf, c.as_ref().map(|s| &s[..s.len().min(80)]), a.as_ref().map(|s| &s[..s.len().min(80)])); fails.push(("C02".into(), m.clone())); if skipf { fails.push(("C10".into(), m.clone())); } fails.push(("C18".into(), m)); } } }
             // back to .slp
             match peppi::io::peppi::read(Cursor::new(&buf), None) {
                 Ok(g2) => { let mut o = vec![]; if slippi::write(&mut o, &g2).is_err() || o != b { fails.push(("C02".into(), "slp -> slpp -> slp differs from the original".into())); }
